@@ -330,6 +330,11 @@ class ShareableThreadLock:
             acquired = False
             try:
                 this_thread_count = Counter({thread_id: self._acquired_by[thread_id]})
+                if not reentrant and this_thread_count[thread_id]:
+                    # NOTE: Recursive non-reentrant request: raise right away
+                    # instead of first waiting for the other holders to leave
+                    # (two such requests would wait for each other forever).
+                    raise RecursiveDeadlockError()
                 if blocking:
                     # NOTE: We could use self._acquired_by != this_thread_count in
                     # Python >= 3.10
